@@ -6,20 +6,25 @@ Local Open Scope Z_scope.
 
 Definition U : Z := stake_unit.
 
-(* F2: RemoveValidator leaves the removed validator in the index (and, w_f2b,
-   IntermediateRoot decrements the statistics a second time) *)
-Definition w_f2 : list op :=
-  [OCreate 100 1 1 (10 * U) 10; OCreate 200 1 1 (20 * U) 20; ORoot; ORemove 100].
-Definition w_f2b : list op := w_f2 ++ [ORoot].
-(* F3: GetValidatorsForUpdate reloads the persisted index and forgets a new validator *)
-Definition w_f3 : list op :=
-  [OCreate 100 1 1 (10 * U) 10; ORoot; OCreate 200 2 1 (20 * U) 20; OList].
 (* F5: a delegation from an address without account is recorded on the validator only *)
 Definition w_f5 : list op :=
   [OCreate 100 1 1 (10 * U) 10; ODelegate 1 100 (3 * U)].
-(* F6: IsInvalid() looks at the low 64 bits: a validator whose 19 components are
-   all below one stake unit and sum to 2^64 is deleted with its delegations *)
-Definition w_f6 : list op :=
+(* F7 (stale-index-reload): every validator removed since the last root empties the
+   in-memory index; GetValidatorsForUpdate then reloads the persisted index, which
+   still lists the removed validator *)
+Definition w_f7 : list op :=
+  [OCreate 100 1 1 (10 * U) 10; ORoot; ORemove 100; OList].
+(* F8 (copy-reindexes-removed-validator): Copy adds every address of
+   validatorObjectsDirty to the copy's index, a removed validator included *)
+Definition w_f8 : list op :=
+  [OCreate 100 1 1 (10 * U) 10; ORoot; ORemove 100; OFinalise; OCopy].
+
+(* regressions of the repaired classes: these histories now satisfy the property *)
+Definition r_f2 : list op :=
+  [OCreate 100 1 1 (10 * U) 10; OCreate 200 1 1 (20 * U) 20; ORoot; ORemove 100; ORoot].
+Definition r_f3 : list op :=
+  [OCreate 100 1 1 (10 * U) 10; ORoot; OCreate 200 2 1 (20 * U) 20; OList].
+Definition r_f6 : list op :=
   OCreate 100 1 0 446744073709551634 0
   :: map (fun d => OFund d) (map Z.of_nat (seq 1 18))
   ++ map (fun d => ODelegate d 100 (U - 1)) (map Z.of_nat (seq 1 18))
@@ -41,16 +46,17 @@ Proof.
   destruct (inv_all s); [discriminate|reflexivity].
 Qed.
 
-Lemma refuted_f2 : refutes w_f2. Proof. apply refutes_b_spec. vm_compute. reflexivity. Qed.
-Lemma refuted_f3 : refutes w_f3. Proof. apply refutes_b_spec. vm_compute. reflexivity. Qed.
 Lemma refuted_f5 : refutes w_f5. Proof. apply refutes_b_spec. vm_compute. reflexivity. Qed.
-Lemma refuted_f6 : refutes w_f6. Proof. apply refutes_b_spec. vm_compute. reflexivity. Qed.
+Lemma refuted_f7 : refutes w_f7. Proof. apply refutes_b_spec. vm_compute. reflexivity. Qed.
+Lemma refuted_f8 : refutes w_f8. Proof. apply refutes_b_spec. vm_compute. reflexivity. Qed.
 
-Lemma f2_double_decrement :
-  exists s, run init w_f2b = Some s /\ inv_stat s = false /\ on_count (k0 (stat_ s)) = 0 /\ length (live s) = 1%nat.
-Proof. eexists. split; [vm_compute; reflexivity|]. vm_compute. auto. Qed.
+Definition holds_b (w : list op) : bool :=
+  safe w && match run init w with Some s => inv_all s | None => false end.
+Lemma repaired_f2 : holds_b r_f2 = true. Proof. vm_compute. reflexivity. Qed.
+Lemma repaired_f3 : holds_b r_f3 = true. Proof. vm_compute. reflexivity. Qed.
+Lemma repaired_f6 : holds_b r_f6 = true. Proof. vm_compute. reflexivity. Qed.
 
 Theorem full_statement_refuted : ~ (forall ops s, run init ops = Some s -> inv_all s = true).
 Proof.
-  intros H. destruct refuted_f2 as (_ & _ & s & Hr & Hi). rewrite (H _ _ Hr) in Hi. discriminate.
+  intros H. destruct refuted_f5 as (_ & _ & s & Hr & Hi). rewrite (H _ _ Hr) in Hi. discriminate.
 Qed.
